@@ -555,6 +555,50 @@ def schedule_pair(ctx, rep, M, rng, base, pidx, label, s0, s1, present, texts, b
         shutil.rmtree(d, ignore_errors=True)
 
 # ----------------------------------------------------------------------------------------
+# ----------------------------------------------------------------------------------------
+# (iii) array arguments: the superposition routines called directly with coordinate containers the caller keeps using
+def array_args_case(rep, case):
+    """two superposition computations sharing their argument containers (float64 arrays or nested lists): each returns what
+    it returns alone (on fresh copies), and the caller's containers are left as they were"""
+    import numpy as np, copy
+    import_impl(); import importlib; sup = importlib.import_module('pdb2sql.superpose')
+    def mk(v):
+        return np.array(v, dtype=np.float64) if case['carrier'] == 'f64' else copy.deepcopy(v)
+    problems = []
+    try:
+        alone = []
+        for method in case['methods']:
+            xyz, sm, st = mk(case['xyz']), mk(case['sel_m']), mk(case['sel_t'])
+            alone.append(np.array(sup.superpose_selection(xyz, sm, st, method), dtype=float))
+        sm, st = mk(case['sel_m']), mk(case['sel_t'])
+        keep = [np.array(a, dtype=float).copy() for a in (sm, st)]
+        for k, method in enumerate(case['methods']):
+            # the coordinates to move are handed over afresh each time (the routine centres that array in place, Appendix A);
+            # the two SELECTIONS are the containers the caller goes on using
+            xyz = mk(case['xyz'])
+            got = np.array(sup.superpose_selection(xyz, sm, st, method), dtype=float)
+            if got.shape != alone[k].shape or not np.allclose(got, alone[k], rtol=0, atol=1e-9):
+                problems.append('call %d (%s) sharing its argument containers with the previous call returns a result differing by %.3g from the one it returns alone'
+                                % (k, method, float(np.max(np.abs(got - alone[k]))) if got.shape == alone[k].shape else float('nan')))
+                break
+            for nm, a, b in zip(('sel_mobile', 'sel_target'), (sm, st), keep):
+                if not np.array_equal(np.array(a, dtype=float), b):
+                    problems.append('call %d (%s) modified its argument %s' % (k, method, nm)); break
+            if problems: break
+    except Exception as e:
+        problems.append('raised ' + exc_class(e) + ': ' + str(e)[:200])
+    rep.case(case, ['array-arguments', 'carrier-' + case['carrier']])
+    if problems:
+        rep.mismatch('impl_vs_spec', case, problems=problems)
+
+def gen_array_args(rng):
+    n = rng.randint(3, 9)
+    P = [[round(rng.uniform(-20, 20), 3) for _ in range(3)] for _ in range(n)]
+    Qs = [[round(x + rng.uniform(-1, 1) + 7.0, 3) for x in p] for p in P]
+    extra = [[round(rng.uniform(-20, 20), 3) for _ in range(3)] for _ in range(rng.randint(1, 5))]
+    return {'part': 'array-arguments', 'carrier': rng.choice(['f64', 'f64', 'list']), 'xyz': P + extra, 'sel_m': P, 'sel_t': Qs,
+            'methods': rng.choice([['svd', 'quaternion'], ['quaternion', 'svd'], ['svd', 'svd']])}
+
 def explore(ctx, tier, rng, search=False):
     rep = Report()
     M = modules()
@@ -596,6 +640,9 @@ def explore(ctx, tier, rng, search=False):
                 idx += 1
         else:
             rep.notes.append('bundled 1AK4 files not used (not found under the expected names)')
+    # (iii) array arguments
+    for _ in range(60 if deep else 20):
+        array_args_case(rep, gen_array_args(rng))
     # (ii) schedules
     pairs = sched_pairs()
     budget_total = 5000 if deep else 200
@@ -626,6 +673,8 @@ def replay(ctx, case):
         c = case['call']
         texts = (case['inputs']['ref'], case['inputs']['decoy'], case['inputs']['decoy'])
         footprint_case(ctx, rep, M, rng, base, 0, c['routine'], c['zmode'], c['export'], case['seeded'], texts, case.get('indir', ''))
+    elif case.get('part') == 'array-arguments':
+        array_args_case(rep, case)
     elif case.get('part') == 'schedule':
         texts = (case['inputs']['ref'], case['inputs']['decoy'], case['inputs']['decoy2'])
         calls = case['calls']
